@@ -18,6 +18,10 @@ CLAIMS = {
          "OwnerRpc dispatch is unreachable without (plaintext init_secure_api | decrypt_request Ok); decrypt Ok requires AEAD open Ok under the handler's key; with was_encrypted set the reply leaves only through encrypt_response Ok; key rotation; single dispatcher. AES-GCM/HTTP not decided."),
  "C14": ("cut-set reachability + field-access table + interprocedural mask-argument binding", "4 C14",
          "keychain() returns Ok only on the checksum-equal edge over the masked clone; the raw keychain field and raw store writes do not escape; every function given a mask forwards that same mask (211 call sites); every Owner method with a mask consults it; closed wallet errs. Behavioural equality with an unmasked wallet is not decided."),
+ "C11": ("cut-set reachability + comparison/operand provenance + interprocedural backward slice of the slate parameter", "4 C11",
+         "Sender-side verifier: from the proof arm, Ok is unreachable without each of (stored request present, derivation index, sender-address equality, receiver-address equality vs the stored request, signature present, verify Ok over payment_proof_message); the verifier sits between complete_tx and update_stored_tx; exported-proof verifier needs kernel-on-chain and both signatures; one message format at all call sites; export completeness; R6 traces where the stored 'requested receiver' comes from (3 known findings: it comes from the counterparty's reply in the sync/late-lock orders). ed25519 unforgeability and value-level equality not decided."),
+ "C17": ("cut-set reachability (no effect before check_ttl Ok) + comparison-shape analysis of the TTL boundary + sibling table of slate-taking entry points", "4 C17",
+         "Every api_impl entry point that takes a counterparty slate and reaches an effect is in the step table and its first effect needs the Ok-edge of check_ttl on the incoming slate; refusal edge <=> cutoff != 0 and last_confirmed_height >= cutoff; step-5 cancel <=> tip >= cutoff on outstanding entries; both log-entry creators record the cutoff."),
 }
 
 checks = []
